@@ -19,6 +19,22 @@ static long sum9(long a, long b, long c, long d, long e, long f, long g, long h,
 static int disj(void *a, unsigned long na, void *b, unsigned long nb) {
   unsigned long x = (unsigned long)a, y = (unsigned long)b; return x + na <= y || y + nb <= x; }
 #define AL(p, a) ((unsigned long)(p) % (a) == 0)
+/* an object initialised with { v }: first byte v, all other value bytes zero */
+static int ci(char *p, int n, int v) { if (p[0] != (char)v) return 0; for (int j = 1; j < n; j++) if (p[j]) return 0; return 1; }
+typedef struct __attribute__((aligned(16))) { int a; } S16;
+typedef struct { unsigned char r, g, b; } S3;
+/* up to three initialised objects received together: each holds { 65 + position }, they are pairwise disjoint and
+   aligned; n = 1000 * alignment + 100 * size + number of value bytes (0 = no object).  Afterwards the objects are
+   scribbled on, so that the next initialisation has to clear them again */
+static int ci3(char *a, int na, char *b, int nb, char *c, int nc) {
+  char *p[3] = {a, b, c}; int n[3] = {na, nb, nc}, r = 1;
+  for (int j = 0; j < 3; j++) if (n[j]) {
+    r = r && ci(p[j], n[j] % 100, 65 + j) && AL(p[j], n[j] / 10000);
+    for (int k = 0; k < j; k++) if (n[k]) r = r && disj(p[j], n[j] / 100 % 100, p[k], n[k] / 100 % 100);
+  }
+  for (int j = 0; j < 3; j++) if (n[j]) for (int k = 0; k < n[j] / 100 % 100; k++) p[j][k] = 0xee;
+  return r;
+}
 '''
 VLA_SIZES = [1, 2, 7, 8, 9, 16, 17]
 ALLOCA_SIZES = [1, 8, 15, 16, 17, 33, 48]
@@ -157,7 +173,74 @@ def frame_cases():
     return out
 
 
+# ---- initialisation in a live frame (FrameI.tla Reinit): the initialisation of one object is executed while the
+# objects declared after it (and before it) hold values.  Forms = how execution order departs from declaration order:
+#   goto   the declaration `T v = { c }` is reached again through a backward goto (later declarations are jumped over)
+#   args   compound literals as sibling arguments of one call (evaluated in the implementation's order), executed twice
+#   desig  compound literals as values of a designated initializer list naming the members out of order, executed twice
+# (kind text, size, value bytes, alignment, address of the literal)
+LITS = [("char", 1, 1, 1, "&"), ("char[3]", 3, 3, 1, ""), ("char[7]", 7, 7, 1, ""), ("long", 8, 8, 8, "&"), ("short[5]", 10, 10, 2, ""),
+        ("char[17]", 17, 17, 1, ""), ("S16", 16, 4, 16, "&"), ("S3", 3, 3, 1, "&")]
+VALBYTES = {6: 4}          # LOCALS[6] = the 16-byte aligned struct { int a; }: 4 value bytes, the rest is padding
+
+
+def init_cases():
+    import itertools
+    out = []
+    for n in (1, 2, 3):
+        for seq in itertools.product(range(len(LOCALS)), repeat=n):
+            for j in range(n):
+                out.append(dict(kind="frame", ctx="init_goto", n=n, m=j, seq=list(seq)))
+    for n in (2, 3):
+        for seq in itertools.product(range(len(LITS)), repeat=n):
+            out.append(dict(kind="frame", ctx="init_args", n=n, m=0, seq=list(seq)))
+            for m in ((1,) if n == 2 else (1, 2)):           # 1 = members named in reverse order, 2 = rotated by one
+                out.append(dict(kind="frame", ctx="init_desig", n=n, m=m, seq=list(seq)))
+    return out
+
+
+def render_init(i, c):
+    seq, cx = c["seq"], c["ctx"]
+    f = ["static void f%d(void) {" % i, " int ok = 1, al = 1, dj = 1;"]
+    if cx == "init_goto":
+        j = c["m"]
+        f.append(" volatile int pass = 0;")
+
+        def fill(x):
+            k = seq[x]
+            return " " + LOCALS[k][0] % ("v%d" % x) + "; use((char *)&v%d, %d, %d); al = al && AL(&v%d, %d);" % (x, LOCALS[k][1], 10 + 20 * x, x, LOCALS[k][2])
+        f += [fill(x) for x in range(j)]
+        k = seq[j]
+        f += ["again:;", " " + LOCALS[k][0] % ("v%d" % j) + " = { %d };" % (65 + j), " if (pass) goto done;",
+              " al = al && AL(&v%d, %d); use((char *)&v%d, %d, 99);" % (j, LOCALS[k][2], j, LOCALS[k][1])]
+        f += [fill(x) for x in range(j + 1, len(seq))]
+        f += [" pass = 1; id(1); goto again;", "done:", " id(2);"]
+        for x, k in enumerate(seq):
+            if x == j:
+                f.append(" ok = ok && ci((char *)&v%d, %d, %d);" % (x, VALBYTES.get(k, LOCALS[k][1]), 65 + j))
+            else:
+                f.append(" ok = ok && chk((char *)&v%d, %d, %d);" % (x, LOCALS[k][1], 10 + 20 * x))
+            for x2 in range(x):
+                f.append(" dj = dj && disj(&v%d, %d, &v%d, %d);" % (x, LOCALS[k][1], x2, LOCALS[seq[x2]][1]))
+    else:
+        lit = ["(char *)%s(%s){ %d }" % (LITS[k][4], LITS[k][0], 65 + x) for x, k in enumerate(seq)]
+        code = [str(LITS[k][3] * 10000 + LITS[k][1] * 100 + LITS[k][2]) for k in seq]
+        n = len(seq)
+        if cx == "init_args":
+            args = ", ".join("%s, %s" % (lit[x], code[x]) for x in range(n)) + ", (char *)0, 0" * (3 - n)
+            f.append(" for (int it = 0; it < 2; it++) { ok = ok && ci3(%s); id(it); }" % args)
+        else:
+            order = list(reversed(range(n))) if c["m"] == 1 else [(x + 1) % n for x in range(n)]
+            ini = ", ".join(".p%d = %s" % (x, lit[x]) for x in order)
+            args = ", ".join("r.p%d, %s" % (x, code[x]) for x in range(n)) + ", (char *)0, 0" * (3 - n)
+            f.append(" for (int it = 0; it < 2; it++) { struct { char *p0, *p1, *p2; } r = { %s }; ok = ok && ci3(%s); id(it); }" % (ini, args))
+    f += [' printf("B %d %%d %%d %%d 1\\n", ok, al, dj);' % i, "}"]
+    return "\n".join(f) + "\n"
+
+
 def render_frame(i, c):
+    if c["ctx"].startswith("init_"):
+        return render_init(i, c)
     f = ["static void f%d(void) {" % i, " int ok = 1, al = 1, dj = 1;"]
     for j, k in enumerate(c["seq"]):
         f.append(" " + LOCALS[k][0] % ("v%d" % j) + ";")
@@ -216,6 +299,9 @@ def run_blocks(ctx, tree, q):
     ctx.sample(dict(kind="blocks", case=cs[3], c_source=render_blk(0, cs[3])))
     fr = frame_cases()
     cs = cs + (vt.subsample(fr, ctx.seed, 2) if q else fr)
+    ini = init_cases()
+    ctx.sample(dict(kind="blocks", case=ini[100], c_source=render_init(0, ini[100])))
+    cs = cs + (vt.subsample(ini, ctx.seed, 4) if q else ini)
     check(ctx, tree, cs)
     ctx.cov["block_cases"] = len(cs)
 
